@@ -49,13 +49,13 @@ fn check_cfg(property: &str, thorough: bool) -> Option<orch::CheckCfg> {
     let workers = std::thread::available_parallelism().map(|n| n.get()).unwrap_or(4).min(16);
     let scale: u64 = std::env::var("RBXSIM_SCALE").ok().and_then(|s| s.parse().ok()).unwrap_or(100);
     let (engine, level, runs_q, runs_t, chunk) = match property {
-        "C13" => ("iosim", "fault_enumeration", 60_000u64, 1_200_000u64, 500u64),
-        "C18" => ("schedsim", "exploration", 40_000u64, 1_000_000u64, 500u64),
-        "C07" => ("detsim", "exploration", 20_000u64, 600_000u64, 250u64),
-        "C09" => ("domsim", "exploration", 60_000u64, 2_000_000u64, 500u64),
-        "C10" => ("domsim", "exploration", 60_000u64, 2_000_000u64, 500u64),
-        "C11" => ("domsim", "exploration", 60_000u64, 2_000_000u64, 500u64),
-        "C12" => ("domsim+schedsim", "exploration", 60_000u64, 1_500_000u64, 500u64),
+        "C13" => ("iosim", "fault_enumeration", 240_000u64, 6_000_000u64, 1000u64),
+        "C18" => ("schedsim", "exploration", 120_000u64, 3_000_000u64, 1000u64),
+        "C07" => ("detsim", "exploration", 60_000u64, 1_500_000u64, 500u64),
+        "C09" => ("domsim", "exploration", 300_000u64, 8_000_000u64, 2000u64),
+        "C10" => ("domsim", "exploration", 300_000u64, 8_000_000u64, 2000u64),
+        "C11" => ("domsim", "exploration", 300_000u64, 8_000_000u64, 2000u64),
+        "C12" => ("domsim+schedsim", "exploration", 200_000u64, 5_000_000u64, 1000u64),
         _ => return None,
     };
     let runs = (if thorough { runs_t } else { runs_q }) * scale / 100;
@@ -69,8 +69,8 @@ fn check_cfg(property: &str, thorough: bool) -> Option<orch::CheckCfg> {
         workers,
         hang_limit_s: if thorough { 60.0 } else { 20.0 },
         soft_deadline_s: if thorough { 1500.0 } else { 100.0 },
-        det_mod: if thorough { 97 } else { 53 },
-        det_chunks: if thorough { 48 } else { 16 },
+        det_mod: if thorough { 41 } else { 13 },
+        det_chunks: if thorough { 64 } else { 32 },
         max_shrink: 300,
         extra_assumptions: vec![],
         cross_env: property == "C07",
